@@ -60,7 +60,8 @@ type Config struct {
 	Yields        map[string]int64 `json:"yields,omitempty"` // H2 site -> park duration (us)
 
 	// Handler topology for C20 (see handlers.go)
-	Mux []MuxReg `json:"mux,omitempty"`
+	Mux           []MuxReg `json:"mux,omitempty"`
+	MuxAsyncOuter bool     `json:"mux_async_outer,omitempty"`
 
 	// keepalive family (C13 part 1)
 	KAIntervalUs int64     `json:"ka_interval_us,omitempty"`
